@@ -5,19 +5,32 @@ Model of the processing stack of a `des` network module as the code runs it
 * `upstream`   = `Processor::incoming_upstream`:   `for i in 0..n { items[i].event_start();
                   if let Some(m) = msg { msg = items[i].incoming(m) } }`
 * `downstream` = `Processor::incoming_downstream`: `for i in (0..n).rev() { items[i].event_end() }`
-* `runEvent`   = one `ModuleRef::{handle_message, async_wakeup, at_sim_start, at_sim_end}` between
-                  `activate()` and `deactivate()`: timer bump, upstream, handler inside
-                  `Harness::exec` (new tokio tasks are polled, woken tasks run), downstream, the
-                  wake-up decision of `deactivate`.
-* `Sim` / `step` / `run` = the kernel loop around it: the future event set (the abstract event set
-  `FES` of C01/C03), `BUF_CTX.events` (the pushes of an event are flushed in the order they were
-  made by `buf_process`, after the wake-up that `deactivate` adds), `SimLifecycle::at_sim_start`
-  (stages outer loop, modules inner loop) and `at_sim_end` (no flush).
+* `bracket`    = upstream, the handler inside `Harness::exec` (new tokio tasks are polled, woken
+                  tasks run), downstream — the body of `ModuleRef::{handle_message (active module),
+                  async_wakeup (active module), at_sim_start, at_sim_end}`
+* `activate` / `deactivate` = `ModuleRef::activate/deactivate`: timer bump / wake-up decision
+* `runEvent`   = activate, one bracket, deactivate;  `idleEvent` = what is left of a message or
+                  wake-up event of a module that is shut down (`ctx.active == false`): no hook, no
+                  handler;  `restartEvent` = `ModuleRef::module_restart`: the module becomes active
+                  and *all* its start stages run as consecutive brackets inside one kernel event
+* `Sim` / `step` / `run` = the kernel loop: the future event set (the abstract event set `FES` of
+  C01/C03), `BUF_CTX.events` (the pushes of an event are flushed in the order they were made by
+  `buf_process`, after the wake-up that `deactivate` adds), the shutdown part of `buf_process`
+  (the *last* `shutdown()/shutdow_and_restart_in()` of the event wins; the module becomes inactive,
+  its tokio runtime and so all its sleeping tasks are dropped, `Module::reset` runs — no element
+  hook —, the restart event is scheduled after the flushed events),
+  `SimLifecycle::at_sim_start` (stages outer loop, modules inner loop, inactive modules skipped)
+  and `at_sim_end` (every module, active or not, gets a full bracket; no flush, shutdown requests
+  are not processed any more).  Elements are never re-created: their state survives a restart.
 
 Elements and handlers are *scripted*: what they do is an arbitrary function of what the Rust
-object can observe (the message id for `incoming`/`handle_message`, the ordinal of the element's
-own `event_start`/`event_end` calls, the stage).  Every hook call and every push onto
-`BUF_CTX.events` is recorded, in program order, in one trace of `Item`s.
+object can observe (message id, the ordinal of its own calls of that hook, the stage).  Every
+hook call, every push onto `BUF_CTX.events` and every shutdown request is recorded, in program
+order, in one trace of `Item`s.
+
+Not modelled: panics (after a non-caught handler panic `?` skips `incoming_downstream`, i.e. no
+`event_end`; a caught one deactivates the module like a shutdown without reset) and sends from
+`Module::reset`.
 -/
 import Desverif.Spec.FES
 namespace Proc
@@ -44,38 +57,48 @@ structure Emit where
   id : Nat
 deriving Repr, DecidableEq
 
-/-- what a handler callback does, in program order: send right away, or `tokio::spawn` a task
-    that sleeps `extra + 1` ns and then sends -/
+/-- what an element hook does besides logging: send, or `current().shutdown()` (`none`) /
+    `current().shutdow_and_restart_in(d)` (`some d`) -/
+inductive Action
+  | send (e : Emit)
+  | shutdown (restartIn : Option Nat)
+deriving Repr, DecidableEq
+
+/-- what a handler callback does, in program order: send right away, `tokio::spawn` a task
+    that sleeps `extra + 1` ns and then sends, or request a shutdown -/
 inductive HEmit
   | now (e : Emit)
   | task (extra : Nat) (e : Emit)
+  | shutdown (restartIn : Option Nat)
 deriving Repr, DecidableEq
 
 /-- scripted behaviour of a processing element -/
 structure Elem where
   tag : Nat
-  act : Nat → Act               -- `incoming`, by message id
-  onStart : Nat → List Emit     -- `event_start`, by ordinal of the call
-  onInc : Nat → List Emit       -- `incoming`, by message id
-  onEnd : Nat → List Emit       -- `event_end`, by ordinal of the call
+  act : Nat → Act                     -- `incoming`, by message id
+  onStart : Nat → List Action         -- `event_start`, by ordinal of the call
+  onInc : Nat → Nat → List Action     -- `incoming`, by message id and ordinal of the call
+  onEnd : Nat → List Action           -- `event_end`, by ordinal of the call
 
 /-- an installed element: behaviour + its own call counters -/
 structure ElemRt where
   spec : Elem
   starts : Nat
+  incs : Nat
   ends : Nat
 
 structure Handler where
   stages : Nat
-  onMsg : Nat → List HEmit
-  onSimStart : Nat → List HEmit
+  onMsg : Nat → Nat → List HEmit        -- message id, ordinal of the `handle_message` call
+  onSimStart : Nat → Nat → List HEmit   -- stage, ordinal of the `at_sim_start` call
   onSimEnd : List HEmit
 
 /-- kernel events (`NetEvents`) -/
 inductive KEvent
-  | deliver (mod msg : Nat)     -- HandleMessageEvent
-  | exitConn (mod msg : Nat)    -- MessageExitingConnection whose gate chain ends at `mod`
-  | wakeup (mod : Nat)          -- AsyncWakeupEvent
+  | deliver (mod msg : Nat)         -- HandleMessageEvent
+  | exitConn (src dst msg : Nat)    -- MessageExitingConnection on `src`'s gate, chain ends at `dst`
+  | wakeup (mod : Nat)              -- AsyncWakeupEvent
+  | restart (mod : Nat)             -- ModuleRestartEvent
 deriving Repr, DecidableEq
 
 inductive Hook
@@ -92,19 +115,25 @@ structure Entry where
   time : Nat
 deriving Repr, DecidableEq
 
-/-- program-order trace of one event: hook calls and pushes onto `BUF_CTX.events` -/
+/-- program-order trace of one event: hook calls, pushes onto `BUF_CTX.events`, shutdown requests
+    (with the absolute restart time) -/
 inductive Item
   | call (e : Entry)
   | push (ev : KEvent) (t : Nat)
+  | down (restartAt : Option Nat)
 deriving Repr, DecidableEq
 
 def Item.entry? : Item → Option Entry
   | .call e => some e
-  | .push .. => none
+  | _ => none
 
 def Item.push? : Item → Option (KEvent × Nat)
-  | .call _ => none
   | .push ev t => some (ev, t)
+  | _ => none
+
+def Item.down? : Item → Option (Option Nat)
+  | .down r => some r
+  | _ => none
 
 /-- the module the event runs on, and `SimTime::now()` -/
 structure Ctx where
@@ -116,31 +145,35 @@ structure Ctx where
 def Emit.toItem (c : Ctx) (e : Emit) : Item :=
   if e.send && e.dst != c.mod then
     if e.delay = 0 then .push (.deliver e.dst e.id) c.now
-    else .push (.exitConn e.dst e.id) (c.now + e.delay)
+    else .push (.exitConn c.mod e.dst e.id) (c.now + e.delay)
   else .push (.deliver c.mod e.id) (c.now + e.delay)
 
+def Action.toItem (c : Ctx) : Action → Item
+  | .send e => e.toItem c
+  | .shutdown r => .down (r.map (c.now + ·))
+
 def startItems (c : Ctx) (i : Nat) (e : ElemRt) : List Item :=
-  .call ⟨c.mod, some i, .start, none, c.now⟩ :: (e.spec.onStart e.starts).map (Emit.toItem c)
+  .call ⟨c.mod, some i, .start, none, c.now⟩ :: (e.spec.onStart e.starts).map (Action.toItem c)
 
 def incItems (c : Ctx) (i : Nat) (e : ElemRt) (id : Nat) : List Item :=
-  .call ⟨c.mod, some i, .inc, some id, c.now⟩ :: (e.spec.onInc id).map (Emit.toItem c)
+  .call ⟨c.mod, some i, .inc, some id, c.now⟩ :: (e.spec.onInc id e.incs).map (Action.toItem c)
 
 def endItems (c : Ctx) (i : Nat) (e : ElemRt) : List Item :=
-  .call ⟨c.mod, some i, .end_, none, c.now⟩ :: (e.spec.onEnd e.ends).map (Emit.toItem c)
+  .call ⟨c.mod, some i, .end_, none, c.now⟩ :: (e.spec.onEnd e.ends).map (Action.toItem c)
 
 /-- `incoming_upstream`, from stack index `i` on: new element states, the message that is left,
     the trace -/
 def upstream (c : Ctx) : Nat → List ElemRt → Option Nat → List ElemRt × Option Nat × List Item
   | _, [], msg => ([], msg, [])
   | i, e :: es, msg =>
-    let e' := { e with starts := e.starts + 1 }
     match msg with
     | some id =>
       let r := upstream c (i + 1) es ((e.spec.act id).apply id)
-      (e' :: r.1, r.2.1, startItems c i e ++ incItems c i e id ++ r.2.2)
+      ({ e with starts := e.starts + 1, incs := e.incs + 1 } :: r.1, r.2.1,
+        startItems c i e ++ incItems c i e id ++ r.2.2)
     | none =>
       let r := upstream c (i + 1) es none
-      (e' :: r.1, r.2.1, startItems c i e ++ r.2.2)
+      ({ e with starts := e.starts + 1 } :: r.1, r.2.1, startItems c i e ++ r.2.2)
 
 /-- `incoming_downstream`: the elements behind `e` end first -/
 def downstream (c : Ctx) : Nat → List ElemRt → List ElemRt × List Item
@@ -160,6 +193,12 @@ def Kind.msg? : Kind → Option Nat
   | .message id => some id
   | _ => none
 
+/-- `handle_message` and `async_wakeup` test `ctx.active` first; `at_sim_start` / `at_sim_end` do not -/
+def Kind.needsActive : Kind → Bool
+  | .message _ => true
+  | .wakeup => true
+  | _ => false
+
 /-- pending `Sleep`s of a module's tasks: `TimerQueue.pending` flattened (slots ascending by
     deadline, entries of a slot in registration order), with what the task does when it resumes -/
 abbrev Sleepers := List (Nat × Emit)
@@ -171,81 +210,143 @@ def insertSleeper : Sleepers → Nat → Emit → Sleepers
 structure ModRt where
   elems : List ElemRt
   handler : Handler
+  hmsgs : Nat                   -- `handle_message` calls so far
+  hstarts : Nat                 -- `at_sim_start` calls so far
+  active : Bool                 -- `ModuleContext::active`
   sleepers : Sleepers
   nextWakeup : Option Nat       -- `Driver::next_wakeup`; `none` = `SimTime::MAX`
 
-/-- the direct sends of a handler callback -/
+/-- the direct sends and shutdown requests of a handler callback -/
 def hNow (c : Ctx) : List HEmit → List Item
   | [] => []
   | .now e :: r => e.toItem c :: hNow c r
   | .task .. :: r => hNow c r
+  | .shutdown x :: r => .down (x.map (c.now + ·)) :: hNow c r
 
 /-- the tasks a handler callback spawns: (deadline of their sleep, what they send afterwards) -/
 def hTasks (c : Ctx) : List HEmit → List (Nat × Emit)
   | [] => []
   | .now _ :: r => hTasks c r
   | .task extra e :: r => (c.now + extra + 1, e) :: hTasks c r
+  | .shutdown _ :: r => hTasks c r
 
 /-- what the handler callback of this event kind does (`none`: no callback — wake-up, or the
     message was consumed); the message id is the one that left the stack -/
-def handlerCall (c : Ctx) (h : Handler) (kind : Kind) (out : Option Nat) : Option (Entry × List HEmit) :=
+def handlerCall (c : Ctx) (m : ModRt) (kind : Kind) (out : Option Nat) : Option (Entry × List HEmit) :=
   match kind with
   | .message _ =>
     match out with
-    | some id => some (⟨c.mod, none, .msg, some id, c.now⟩, h.onMsg id)
+    | some id => some (⟨c.mod, none, .msg, some id, c.now⟩, m.handler.onMsg id m.hmsgs)
     | none => none
   | .wakeup => none
-  | .simStart k => some (⟨c.mod, none, .simStart, some k, c.now⟩, h.onSimStart k)
-  | .simEnd => some (⟨c.mod, none, .simEnd, none, c.now⟩, h.onSimEnd)
+  | .simStart k => some (⟨c.mod, none, .simStart, some k, c.now⟩, m.handler.onSimStart k m.hstarts)
+  | .simEnd => some (⟨c.mod, none, .simEnd, none, c.now⟩, m.handler.onSimEnd)
 
-def handlerItems (c : Ctx) (h : Handler) (kind : Kind) (out : Option Nat) : List Item :=
-  match handlerCall c h kind out with
+def handlerItems (c : Ctx) (m : ModRt) (kind : Kind) (out : Option Nat) : List Item :=
+  match handlerCall c m kind out with
   | some (e, hs) => .call e :: hNow c hs
   | none => []
 
-def handlerTasks (c : Ctx) (h : Handler) (kind : Kind) (out : Option Nat) : List (Nat × Emit) :=
-  match handlerCall c h kind out with
+def handlerTasks (c : Ctx) (m : ModRt) (kind : Kind) (out : Option Nat) : List (Nat × Emit) :=
+  match handlerCall c m kind out with
   | some (_, hs) => hTasks c hs
   | none => []
+
+/-- `ModuleRef::activate`: `Driver::bump` wakes every slot that is due; a due `next_wakeup` is
+    forgotten.  Returns the woken tasks. -/
+def activate (c : Ctx) (m : ModRt) : ModRt × Sleepers :=
+  ({ m with
+      sleepers := m.sleepers.dropWhile (fun s => s.1 ≤ c.now)
+      nextWakeup := match m.nextWakeup with
+        | some t => if t ≤ c.now then none else some t
+        | none => none },
+   m.sleepers.takeWhile (fun s => s.1 ≤ c.now))
+
+/-- upstream, handler inside `Harness::exec` (then the freshly spawned tasks are polled — they
+    register their sleeps —, then the woken tasks resume and send), downstream -/
+def bracket (c : Ctx) (m : ModRt) (kind : Kind) (woken : Sleepers) : ModRt × List Item :=
+  let up := upstream c 0 m.elems kind.msg?
+  let hItems := handlerItems c m kind up.2.1
+  let asleep := (handlerTasks c m kind up.2.1).foldl (fun s t => insertSleeper s t.1 t.2) m.sleepers
+  let wItems := woken.map (fun s => s.2.toItem c)
+  let down := downstream c 0 up.1
+  ({ m with
+      elems := down.1
+      sleepers := asleep
+      hmsgs := match kind, up.2.1 with
+        | .message _, some _ => m.hmsgs + 1
+        | _, _ => m.hmsgs
+      hstarts := match kind with
+        | .simStart _ => m.hstarts + 1
+        | _ => m.hstarts },
+   up.2.2 ++ hItems ++ wItems ++ down.2)
+
+/-- `ModuleRef::deactivate`: schedule a wake-up if the earliest sleep is before the one already
+    scheduled -/
+def deactivate (m : ModRt) : ModRt × Option Nat :=
+  match m.sleepers.head? with
+  | some s =>
+    match m.nextWakeup with
+    | some t => if s.1 < t then ({ m with nextWakeup := some s.1 }, some s.1) else (m, none)
+    | none => ({ m with nextWakeup := some s.1 }, some s.1)
+  | none => (m, none)
 
 structure EventResult where
   mod : ModRt
   items : List Item
   wake : Option Nat             -- the `AsyncWakeupEvent` that `deactivate` adds
+  fault : Option String := none
 
-/-- one module event between `activate()` and `deactivate()` -/
+/-- one event of an active module between `activate()` and `deactivate()` -/
 def runEvent (c : Ctx) (m : ModRt) (kind : Kind) : EventResult :=
-  -- activate: `Driver::bump` wakes every slot that is due; a due `next_wakeup` is forgotten
-  let woken := m.sleepers.takeWhile (fun s => s.1 ≤ c.now)
-  let asleep := m.sleepers.dropWhile (fun s => s.1 ≤ c.now)
-  let nw := match m.nextWakeup with
-    | some t => if t ≤ c.now then none else some t
-    | none => none
-  -- upstream
-  let up := upstream c 0 m.elems kind.msg?
-  -- handler inside `Harness::exec`; then the freshly spawned tasks are polled (they register their
-  -- sleeps), then the woken tasks resume and send
-  let hItems := handlerItems c m.handler kind up.2.1
-  let asleep := (handlerTasks c m.handler kind up.2.1).foldl (fun s t => insertSleeper s t.1 t.2) asleep
-  let wItems := woken.map (fun s => s.2.toItem c)
-  -- downstream
-  let down := downstream c 0 up.1
-  -- deactivate: schedule a wake-up if the earliest sleep is before the one already scheduled
-  let (nw, wake) := match asleep.head? with
-    | some s =>
-      match nw with
-      | some t => if s.1 < t then (some s.1, some s.1) else (nw, none)
-      | none => (some s.1, some s.1)
-    | none => (nw, none)
-  { mod := { m with elems := down.1, sleepers := asleep, nextWakeup := nw },
-    items := up.2.2 ++ hItems ++ wItems ++ down.2,
-    wake := wake }
+  let a := activate c m
+  let b := bracket c a.1 kind a.2
+  let d := deactivate b.1
+  { mod := d.1, items := b.2, wake := d.2 }
+
+/-- a message or wake-up event of a module that is shut down: `handle_message` / `async_wakeup`
+    return at once; only the timer bookkeeping of `activate` / `deactivate` happens.  (All tasks
+    were dropped with the runtime when the module shut down, so nothing can be due.) -/
+def idleEvent (c : Ctx) (m : ModRt) : EventResult :=
+  let a := activate c m
+  let d := deactivate a.1
+  { mod := d.1, items := [], wake := d.2,
+    fault := if a.2.isEmpty then none else some "task-due-on-inactive-module" }
+
+/-- the start stages `from, from+1, …` of a restart (the woken tasks run in the first `exec`) -/
+def restartStages (c : Ctx) : List Nat → ModRt → Sleepers → ModRt × List Item
+  | [], m, _ => (m, [])
+  | k :: ks, m, woken =>
+    let b := bracket c m (.simStart k) woken
+    let r := restartStages c ks b.1 []
+    (r.1, b.2 ++ r.2)
+
+/-- `ModuleRestartEvent`: `module_restart` sets the module active and runs all its start stages
+    inside this one event -/
+def restartEvent (c : Ctx) (m : ModRt) : EventResult :=
+  let a := activate c m
+  let r := restartStages c (List.range m.handler.stages) { a.1 with active := true } a.2
+  let d := deactivate r.1
+  { mod := d.1, items := r.2, wake := d.2,
+    fault := if m.handler.stages = 0 && !a.2.isEmpty then some "task-due-without-exec" else none }
 
 /-- the log of one event -/
 def EventResult.log (r : EventResult) : List Entry := r.items.filterMap Item.entry?
 
 /-- what one event pushed onto `BUF_CTX.events`, in order -/
 def EventResult.pushes (r : EventResult) : List (KEvent × Nat) := r.items.filterMap Item.push?
+
+/-- the shutdown request that is in `shutdown_task` when the event ends: the last one made -/
+def EventResult.shutdown (r : EventResult) : Option (Option Nat) :=
+  (r.items.filterMap Item.down?).getLast?
+
+/-- the shutdown requests of an event with their position in its log (number of calls made
+    before) — only used to compare with the implementation's log -/
+def downMarks : List Item → Nat → List (Nat × Option Nat)
+  | [], _ => []
+  | .call _ :: r, n => downMarks r (n + 1)
+  | .push .. :: r, n => downMarks r n
+  | .down x :: r, n => (n, x) :: downMarks r n
 
 /-! ## kernel -/
 
@@ -254,6 +355,7 @@ structure Sim where
   fes : FES.State
   evs : Array KEvent            -- payload table: the FES value of an event is its index here
   log : List Entry
+  downs : List (Nat × Nat × Option Nat)   -- shutdown requests: (calls logged before, module, restart time)
   fault : Option String         -- a state the code cannot reach / a panic of the code
 
 /-- `Runtime::add_event` -/
@@ -262,18 +364,53 @@ def Sim.schedule (s : Sim) (ev : KEvent) (t : Nat) : Sim :=
   | .ok (f, _) => { s with fes := f, evs := s.evs.push ev }
   | .error _ => { s with fault := some "add-in-the-past" }
 
-/-- `module.activate(); module.<event>(); module.deactivate(rt); buf_process(module, rt)`
+/-- the shutdown part of `buf_process` -/
+def Sim.applyShutdown (s : Sim) (mi : Nat) (m : ModRt) (req : Option (Option Nat)) : Sim :=
+  match req with
+  | none => s
+  | some restart =>
+    let s := { s with mods := s.mods.set mi { m with active := false, sleepers := [] } }
+    match restart with
+    | some t => s.schedule (.restart mi) t
+    | none => s
+
+/-- `module.deactivate(rt); buf_process(module, rt)` after the event `r` of module `mi`
     (`flush = false` for `at_sim_end`, which does not call `buf_process`) -/
+def Sim.finish (s : Sim) (mi : Nat) (r : EventResult) (flush : Bool) : Sim :=
+  let s := { s with
+    mods := s.mods.set mi r.mod
+    downs := s.downs ++ (downMarks r.items s.log.length).map (fun d => (d.1, mi, d.2))
+    log := s.log ++ r.log
+    fault := match s.fault with
+      | some f => some f
+      | none => r.fault }
+  let s := match r.wake with
+    | some t => s.schedule (.wakeup mi) t
+    | none => s
+  if flush then
+    (r.pushes.foldl (fun s p => s.schedule p.1 p.2) s).applyShutdown mi r.mod r.shutdown
+  else s
+
+/-- `module.activate(); module.<event>(); module.deactivate(rt); buf_process(module, rt)`:
+    a message or a wake-up is ignored by an inactive module, `at_sim_end` is not -/
 def Sim.moduleEvent (s : Sim) (mi : Nat) (kind : Kind) (flush : Bool) : Sim :=
   match s.mods[mi]? with
   | none => { s with fault := some "no-such-module" }
   | some m =>
-    let r := runEvent ⟨mi, s.fes.cur⟩ m kind
-    let s := { s with mods := s.mods.set mi r.mod, log := s.log ++ r.log }
-    let s := match r.wake with
-      | some t => s.schedule (.wakeup mi) t
-      | none => s
-    if flush then r.pushes.foldl (fun s p => s.schedule p.1 p.2) s else s
+    let c : Ctx := ⟨mi, s.fes.cur⟩
+    s.finish mi (if kind.needsActive && !m.active then idleEvent c m else runEvent c m kind) flush
+
+def Sim.restart (s : Sim) (mi : Nat) : Sim :=
+  match s.mods[mi]? with
+  | none => { s with fault := some "no-such-module" }
+  | some m => s.finish mi (restartEvent ⟨mi, s.fes.cur⟩ m) true
+
+/-- `MessageExitingConnection::handle_with_sink` on a channel-less two-gate chain: the message is
+    dropped if the owner of the first gate (the sender) is inactive by now -/
+def Sim.exitConn (s : Sim) (src dst id : Nat) : Sim :=
+  match s.mods[src]? with
+  | none => { s with fault := some "no-such-module" }
+  | some m => if m.active then s.schedule (.deliver dst id) s.fes.cur else s
 
 /-- `Runtime::dispatch_event`; `none` when the future event set is empty -/
 def Sim.step (s : Sim) : Option Sim :=
@@ -286,7 +423,8 @@ def Sim.step (s : Sim) : Option Sim :=
     | none => some { s with fault := some "no-such-event" }
     | some (KEvent.deliver m id) => some (s.moduleEvent m (.message id) true)
     | some (KEvent.wakeup m) => some (s.moduleEvent m .wakeup true)
-    | some (KEvent.exitConn m id) => some (s.schedule (.deliver m id) s.fes.cur)
+    | some (KEvent.restart m) => some (s.restart m)
+    | some (KEvent.exitConn src dst id) => some (s.exitConn src dst id)
 
 /-- `dispatch_all`, for at most `fuel` events (a script may well run for ever) -/
 def Sim.loop : Nat → Sim → Sim
@@ -299,13 +437,15 @@ def Sim.loop : Nat → Sim → Sim
       | none => s
       | some s' => Sim.loop n s'
 
-/-- `SimLifecycle::at_sim_start`: stages outside, modules inside -/
+/-- `SimLifecycle::at_sim_start`: stages outside, modules inside; a module that shut down in an
+    earlier stage is skipped -/
 def Sim.simStart (s : Sim) : Sim :=
   let maxStage := s.mods.foldl (fun a m => max a m.handler.stages) 1
   (List.range maxStage).foldl (fun s stage =>
     (List.range s.mods.length).foldl (fun s mi =>
       match s.mods[mi]? with
-      | some m => if stage < m.handler.stages then s.moduleEvent mi (.simStart stage) true else s
+      | some m =>
+        if stage < m.handler.stages && m.active then s.moduleEvent mi (.simStart stage) true else s
       | none => s) s) s
 
 /-- `SimLifecycle::at_sim_end` -/
@@ -318,7 +458,7 @@ structure Config where
 
 def Sim.init (cfg : Config) : Sim :=
   cfg.inits.foldl (fun s i => s.schedule (.deliver i.1 i.2.1) i.2.2)
-    { mods := cfg.mods, fes := FES.init, evs := #[], log := [], fault := none }
+    { mods := cfg.mods, fes := FES.init, evs := #[], log := [], downs := [], fault := none }
 
 /-- `Runtime::run` (the main loop cut off after `fuel` events) -/
 def run (fuel : Nat) (cfg : Config) : Sim :=
@@ -338,6 +478,11 @@ def buildStack (mode : StackMode) (global own : List Elem) : List ElemRt :=
   (match mode with
    | .append => global ++ own
    | .prepend => own ++ global
-   | .replace => own).map fun e => { spec := e, starts := 0, ends := 0 }
+   | .replace => own).map fun e => { spec := e, starts := 0, incs := 0, ends := 0 }
+
+/-- a freshly built module -/
+def ModRt.fresh (elems : List ElemRt) (h : Handler) : ModRt :=
+  { elems := elems, handler := h, hmsgs := 0, hstarts := 0, active := true, sleepers := [],
+    nextWakeup := none }
 
 end Proc
